@@ -24,6 +24,9 @@ The arithmetic of Python ints is trusted.
 
 Round 4: clauses (c), (d) and the mask of (a) are decided on the bit-provenance normal form
 (bistat/bitprov.py) with the masks as __init__ and _compile define them.
+
+Round 5: 'value or default' in the merge; init that never touches the shared slot; the first
+member emitting the shared Int (witnessed violations).
 """
 import ast
 import copy
